@@ -1,5 +1,5 @@
 (* Property C01 -- statements only; every proof is `exact <lemma from Proofs/>`. *)
-From Erbium Require Import Lib.Base Model.DhcpPool Proofs.DhcpPool.
+From Erbium Require Import Lib.Base Model.DhcpPool Proofs.DhcpPool Proofs.DhcpPoolSpec Proofs.DhcpPoolShift.
 
 (* "an IPv4 address that the server has offered or acknowledged to one client,
    and whose lease has not yet expired, is never offered or acknowledged to a
@@ -67,3 +67,43 @@ Example C01_example_rejects :
   run [ EAlloc (ex_op ex_a None [10]) 1000 1000 (Granted 10 300 NewAddress);
         EAlloc (ex_op ex_b None [10]) 1001 1001 (Granted 10 300 NewAddress) ] = None.
 Proof. reflexivity. Qed.
+
+(* The executable step decides exactly the declarative reading of the four
+   steps of select_address (DESIGN.md Appendix A.1; [admissible] is defined in
+   Proofs/DhcpPoolSpec.v from the RFC 2131 4.3.1 list the code quotes). *)
+Theorem C01_model_decides_spec :
+  forall d o t1 t2 a, Inv d -> t1 < pow2 32 ->
+  ((exists d', alloc_ok d o t1 t2 a = Some d') <-> admissible d o t1 a).
+Proof. exact alloc_ok_iff_admissible. Qed.
+Check C01_model_decides_spec :
+  forall d o t1 t2 a, Inv d -> t1 < pow2 32 ->
+  ((exists d', alloc_ok d o t1 t2 a = Some d') <-> admissible d o t1 a).
+Print Assumptions C01_model_decides_spec.
+
+(* The time hook: a step on the store whose timestamps were moved delta seconds
+   into the past, at wall time t, is the step on the original store at time
+   t + delta, shifted -- as long as nothing saturates.  This is what makes the
+   harness's "absolute = wall clock + seconds ticked" comparable with the model. *)
+Theorem C01_time_shift :
+  forall delta d o t1 t2 a,
+  shiftable delta d ->
+  t1 + delta < pow2 32 -> t2 + delta + ans_secs a < pow2 32 ->
+  alloc_ok (shift delta d) o t1 t2 a = option_map (shift delta) (alloc_ok d o (t1 + delta) (t2 + delta) a).
+Proof. exact alloc_shift. Qed.
+Check C01_time_shift :
+  forall delta d o t1 t2 a,
+  shiftable delta d ->
+  t1 + delta < pow2 32 -> t2 + delta + ans_secs a < pow2 32 ->
+  alloc_ok (shift delta d) o t1 t2 a = option_map (shift delta) (alloc_ok d o (t1 + delta) (t2 + delta) a).
+Print Assumptions C01_time_shift.
+
+Definition ex_d1 : db := [ {| r_addr := 10; r_client := ex_a; r_start := 1000; r_expiry := 1300 |} ].
+Example C01_example_shift :
+  (shiftable 400 ex_d1) /\
+  (alloc_ok (shift 400 ex_d1) (ex_op ex_a None [10]) 1000 1000 (Granted 10 600 Revived)
+   = Some (shift 400 [ {| r_addr := 10; r_client := ex_a; r_start := 1400; r_expiry := 2000 |} ])).
+Proof.
+  split.
+  - intros r [E|[]]. subst. simpl. lia.
+  - reflexivity.
+Qed.
